@@ -248,9 +248,9 @@ fn agg_strategy() -> impl Strategy<Value = AggSpec> {
     })
 }
 
-fn row_strategy(nk: usize, domain: u8, parts: u8) -> impl Strategy<Value = Row> {
+fn row_strategy(nk: usize, domain: u8, parts: u8, vnull: u32) -> impl Strategy<Value = Row> {
     let cell = move || prop_oneof![1 => Just(None), 4 => (0u8..domain).prop_map(Some)];
-    let vcell = prop_oneof![1 => Just(None), 4 => (0u8..TAME).prop_map(Some)];
+    let vcell: BoxedStrategy<Option<u8>> = if vnull == 0 { (0u8..TAME).prop_map(Some).boxed() } else { prop_oneof![1 => Just(None), 4 => (0u8..TAME).prop_map(Some)].boxed() };
     (prop::collection::vec(cell(), nk), prop_oneof![1 => Just(None), 5 => (0u8..4).prop_map(Some)], prop::collection::vec(vcell, 6), prop_oneof![1 => Just(None), 3 => Just(Some(true)), 2 => Just(Some(false))], 0u8..parts).prop_map(|(k, o, v, f, part)| Row { k, o, v, f, part })
 }
 
@@ -294,7 +294,9 @@ impl C06 {
                 };
                 // float keys must avoid NaN / zeros: only tame codes
                 let domain = domain.min(if flavour == 2 { TAME } else { POOL });
-                let rows = prop::collection::vec(row_strategy(nk, domain, parts), 0..=max_rows);
+                // grouped top-k: half of the cases without NULL values (the open finding excludes groups mixing NULL and non-NULL)
+                let vnull = if flavour == 2 && parts % 2 == 0 { 0 } else { 1 };
+                let rows = prop::collection::vec(row_strategy(nk, domain, parts, vnull), 0..=max_rows);
                 let cuts = prop::collection::vec(prop_oneof![1 => Just(0u8), 3 => 1u8..4, 3 => 4u8..40], 1..5);
                 let aggs: BoxedStrategy<Vec<AggSpec>> = if flavour == 2 {
                     prop_oneof![
@@ -347,7 +349,14 @@ impl C06 {
                 };
                 (keys, rows, cuts, aggs, ordered, topk, opts, shape, (Just(parts), prop_oneof![3 => Just(0u8), 1 => 1u8..4], any::<bool>()))
             })
-            .prop_map(|(keys, rows, cuts, aggs, ordered, topk, opts, shape, (parts, jitter, keep_order))| Case { keys, rows, parts, cuts, jitter, aggs, shape, ordered, keep_order, topk, opts })
+            .prop_map(|(keys, rows, cuts, aggs, ordered, topk, opts, shape, (parts, jitter, keep_order))| {
+                let topk = topk.map(|mut t| {
+                    t.soft = t.soft && aggs.is_empty();
+                    t.all_stages = t.all_stages && !matches!(shape, Shape::PartialReduce { .. });
+                    t
+                });
+                Case { keys, rows, parts, cuts, jitter, aggs, shape, ordered, keep_order, topk, opts }
+            })
             .boxed()
     }
 }
